@@ -4,7 +4,7 @@
 //   op     ::= (0 bytes) Feed | (1 n) Ack | (2) PeerFin | (3) Turn | (4) Construct | (5) PeerDrop | (10 aop)
 //   aop    ::= (0 n) Read | (1) ReadAll | (2) Close | (3 code (reason)?) SetStatus | (4 name value replace) SetHeader
 //            | (5 ((k v)..)) SetHeaders | (6) WriteHeaders | (7 bytes) Write | (8 code (reason)?) WriteError
-//            | (9 path perm) WriteRedirect | (10 jsonsrc code) WriteJson | (11) Avail
+//            | (9 path perm) WriteRedirect | (10 jsonsrc code) WriteJson | (11) Avail | (12) a bytesWritten listener subscribes (logged as note 77)
 //   log    ::= (0 avail) headersParsed | (1 avail) readyRead | (2 avail) readChannelFinished | (3 n) bytesWritten
 //            | (4 bytes) read result | (5 bytes) transport write | (6) transport close | (7 avail) Avail
 //            | (8 method rawPath pathUtf8 ((k v)..) ((name value)..) contentLength) request snapshot
@@ -24,7 +24,14 @@ struct SockRun {
     QPointer<Socket> sock;
     Val log = Val::List();
     Val policy;
+    bool lateSpy = false, spyOn = false;      // family socklate: the bytesWritten listener is connected by aop 12 only
 
+    void connectSpy()
+    {
+        if (spyOn || !sock) return;
+        spyOn = true;
+        QObject::connect(sock.data(), &Socket::bytesWritten, [this](qint64 n) { log.add(Val::List({Val::Int(3), Val::Int(n)})); });
+    }
     qint64 avail() { return (sock && sock->isOpen()) ? sock->bytesAvailable() : -1; }
 
     void aop(const Val &a)
@@ -46,6 +53,7 @@ struct SockRun {
         case 9: s->writeRedirect(a.at(1).asBytes(), a.at(2).asInt() != 0); break;
         case 10: s->writeJson(QJsonDocument::fromJson(a.at(1).asBytes()), int(a.at(2).asInt())); break;
         case 11: log.add(Val::List({Val::Int(7), Val::Int(avail())})); break;
+        case 12: log.add(Val::List({Val::Int(30), Val::Int(77)})); if (lateSpy) connectSpy(); break;     // a listener subscribes now
         default: throw std::runtime_error("badcase");
         }
     }
@@ -68,17 +76,19 @@ struct SockRun {
         });
         QObject::connect(s, &Socket::readyRead, [this]() { log.add(Val::List({Val::Int(1), Val::Int(avail())})); react(1); });
         QObject::connect(s, &Socket::readChannelFinished, [this]() { log.add(Val::List({Val::Int(2), Val::Int(avail())})); react(2); });
-        QObject::connect(s, &Socket::bytesWritten, [this](qint64 n) { log.add(Val::List({Val::Int(3), Val::Int(n)})); });
+        if (!lateSpy) connectSpy();
         QObject::connect(s, &Socket::disconnected, [this]() { log.add(Val::List({Val::Int(9)})); });
     }
 };
 
-static Val runSock(const Val &c, bool linger);
+static Val runSock(const Val &c, bool linger, bool late = false);
 Val run_sock(const Val &c) { return runSock(c, false); }
 static Val run_sockl(const Val &c) { return runSock(c, true); }
-static Val runSock(const Val &c, bool linger)
+static Val run_socklate(const Val &c) { return runSock(c, false, true); }
+static Val runSock(const Val &c, bool linger, bool late)
 {
     SockRun r;
+    r.lateSpy = late;
     r.policy = c.at(0);
     if (r.policy.size() != 3) return badcase();
     SimTcp *sim = new SimTcp;
@@ -215,4 +225,4 @@ static Val run_stream(const Val &c)
     return Val::List({Val::Int(written), Val::Int(notified), Val::Int(overshoot), Val::Int(i >= 0 ? got.size() - i - 4 : -1), Val::Bool(!done)});
 }
 
-void reg_sock() { registerFamily("stream", run_stream); registerFamily("sock", run_sock); registerFamily("sockl", run_sockl); registerFamily("socknet", run_socknet); }
+void reg_sock() { registerFamily("stream", run_stream); registerFamily("sock", run_sock); registerFamily("sockl", run_sockl); registerFamily("socknet", run_socknet); registerFamily("socklate", run_socklate); }
